@@ -57,3 +57,20 @@ def extra_checks(tier, seed, build_ok):
     return {"failures": rep["failures"], "evaluations": rep["explored"], "oracle_checks": rep["explored"],
             "distinct_nontrivial": rep["explored"], "samples": list(rep["by_target"])[:4],
             "info": {"schedules_by_target": rep["by_target"], "constructor_shape": shape}}
+
+
+def replay_schedule(failure):
+    """Re-run one recorded schedule (from a replay file) on the current tree."""
+    here = os.path.dirname(os.path.abspath(__file__))
+    script = os.path.join(os.path.dirname(here), "c20_explore.py")
+    sched = failure["schedule"]
+    if isinstance(sched, str):
+        sched = json.loads(sched)
+    out = subprocess.run(["/venv/bin/python", script, "--replay", failure["target"], str(failure.get("threads", 2)),
+                          ",".join(str(x) for x in sched)], stdout=subprocess.PIPE, stderr=subprocess.PIPE, text=True, timeout=600)
+    rep = json.loads(out.stdout.strip().splitlines()[-1]) if out.stdout.strip() else {"problem": out.stderr[-300:]}
+    fails = []
+    if rep.get("problem"):
+        fails.append({"kind": "singleton-violated", "target": failure["target"], "threads": failure.get("threads", 2),
+                      "problem": rep["problem"], "schedule": sched})
+    return {"failures": fails, "evaluations": 1, "oracle_checks": 1, "distinct_nontrivial": 1}
